@@ -296,6 +296,19 @@ func checkC17(c *h.Check) {
 		}
 		return vs
 	}
+	if c.Only != "" {
+		// replay of one recorded history, without the explorer
+		rvs, err := ex.Replay(initial, c.Only)
+		if err != nil {
+			c.Internalf("replay: %v", err)
+		}
+		for _, v := range rvs {
+			c.AddViolation(v, nil, map[string]interface{}{"history": v.CaseID})
+		}
+		c.Coverage["states"], c.Coverage["transitions"], c.Coverage["traces_validated_against_impl"] = 1, 1, 1
+		c.Samples = append(c.Samples, c.Only)
+		return
+	}
 	vs := ex.Explore(initial, c.Deadline)
 	sort.Slice(vs, func(i, j int) bool { return len(vs[i].CaseID) < len(vs[j].CaseID) })
 	for _, v := range vs {
